@@ -12,12 +12,13 @@
 (* Queries are pure operators over the state.  The model is "a simple      *)
 (* in-memory collection of the stored entries":                            *)
 (*                                                                         *)
-(*   ops     : Id -|-> [author, log, seq, hdr, pay, body]                  *)
+(*   ops     : Id -|-> [author, log, seq, hdr, pay, giga, body]            *)
 (*             one row per operation id (hash); `log` is the log id the    *)
 (*             operation was inserted under (it is an argument of          *)
 (*             insert_operation, not part of the header); `hdr` = encoded  *)
-(*             header length, `pay` = the header's payload_size, `body` =  *)
-(*             a payload is stored with the row                            *)
+(*             header length; the header's payload_size (a u32) is         *)
+(*             giga * 2^30 + pay with pay < 2^30 + small (TLC integers are *)
+(*             32 bit); `body` = a payload is stored with the row          *)
 (*   topics  : set of <<topic, author, log>>                               *)
 (*   cursors : Name -|-> value   (value = any height map; opaque here)     *)
 (*                                                                         *)
@@ -50,11 +51,11 @@ Keep(f, S) == [x \in S |-> f[x]]
 
 \* operations/sqlite.rs:41-93  INSERT OR IGNORE, hash is PRIMARY KEY;
 \* returns rows_affected > 0
-InsertOperation(id, a, l, s, h, p, b) ==
+InsertOperation(id, a, l, s, h, p, g, b) ==
     /\ IF id \in DOMAIN ops
        THEN ops' = ops /\ ret' = 0
        ELSE /\ ops' = ops @@ (id :> [author |-> a, log |-> l, seq |-> s,
-                                      hdr |-> h, pay |-> p, body |-> b])
+                                      hdr |-> h, pay |-> p, giga |-> g, body |-> b])
             /\ ret' = 1
     /\ UNCHANGED <<topics, cursors>>
 
@@ -153,8 +154,17 @@ EntriesIsNone(a, l, af, un) == InRange(a, l, af, un) = {}
 SizeCount(a, l, af, un) == Cardinality(InRange(a, l, af, un))
 SizePay(a, l, af, un) == MapThenSumSet(LAMBDA id : ops[id].pay, InRange(a, l, af, un))
 SizeHdr(a, l, af, un) == MapThenSumSet(LAMBDA id : ops[id].hdr, InRange(a, l, af, un))
-SizeBytes(a, l, af, un) == SizeHdr(a, l, af, un) + SizePay(a, l, af, un)
-
+SizeGiga(a, l, af, un) == MapThenSumSet(LAMBDA id : ops[id].giga, InRange(a, l, af, un))
+\* bytes below the 2^30 units (header bytes + payload remainders)
+SizeRest(a, l, af, un) == SizeHdr(a, l, af, un) + SizePay(a, l, af, un)
+\* The result type is (u32, u32).  The byte total giga * 2^30 + rest does not fit into a u32 iff
+\* it is >= 4 * 2^30 (rest < 2^31 is assumed, so giga <= 2 never overflows).  Such a total
+\* has no correct rendering as a pair: the only acceptable outcome is an error - not a panic
+\* and not a wrapped or saturated number.
+Giga == 1073741824
+SizeOverflows(a, l, af, un) ==
+    \/ SizeGiga(a, l, af, un) >= 4
+    \/ SizeGiga(a, l, af, un) = 3 /\ SizeRest(a, l, af, un) >= Giga
 \* The Option wrapper of the two ranged queries.  The trait documents a `None` case for
 \* get_latest_entry and get_log_heights only; for get_log_entries / get_log_size it is silent.
 \* The abstract answers are therefore the LIST of entries and the PAIR (count, bytes); the code
@@ -163,9 +173,19 @@ SizeBytes(a, l, af, un) == SizeHdr(a, l, af, un) + SizePay(a, l, af, un)
 \* list / the zero pair and of nothing else (NOTES.md, "None versus empty").
 EntriesAnswerOK(none, s, a, l, af, un) ==
     IF none THEN InRange(a, l, af, un) = {} ELSE IsEntriesAnswer(s, a, l, af, un)
-SizeAnswerOK(none, n, bytes, a, l, af, un) ==
-    IF none THEN SizeCount(a, l, af, un) = 0
-    ELSE n = SizeCount(a, l, af, un) /\ bytes = SizeBytes(a, l, af, un)
+\* `bytes` is the logged total when it is < 2^31, else the logged total minus 2^31 with
+\* `high` = TRUE (so that TLC's 32-bit integers can carry every u32)
+SizeAnswerOK(err, none, n, bytes, high, a, l, af, un) ==
+    IF SizeOverflows(a, l, af, un) THEN err
+    ELSE /\ ~err
+         /\ IF none THEN SizeCount(a, l, af, un) = 0
+            ELSE /\ n = SizeCount(a, l, af, un)
+                 /\ LET g == SizeGiga(a, l, af, un)
+                        r == SizeRest(a, l, af, un)
+                    IN \* total = g * 2^30 + r ; high <=> total >= 2^31
+                       IF g >= 2 THEN high /\ bytes = (g - 2) * Giga + r
+                       ELSE IF g = 1 /\ r >= Giga THEN high /\ bytes = r - Giga
+                       ELSE ~high /\ bytes = g * Giga + r
 
 -----------------------------------------------------------------------------
 (* Queries of OperationStore, TopicStore, CursorStore (C09)                *)
@@ -214,8 +234,9 @@ RangesTile(As, Ls, Bs) ==
 SizeMatchesEntries(As, Ls, Bs) ==
     \A a \in As, l \in Ls : \A x \in Bs \cup {NoneS}, y \in Bs \cup {NoneS} :
         /\ (SizeCount(a, l, x, y) = 0) <=> EntriesIsNone(a, l, x, y)
-        /\ SizeBytes(a, l, x, y) >= SizeCount(a, l, x, y)          \* headers are never empty
-        /\ SizeCount(a, l, x, y) = 0 => SizeBytes(a, l, x, y) = 0
+        /\ SizeRest(a, l, x, y) >= SizeCount(a, l, x, y)           \* headers are never empty
+        /\ SizeCount(a, l, x, y) = 0 => (SizeRest(a, l, x, y) = 0 /\ SizeGiga(a, l, x, y) = 0)
+        /\ SizeOverflows(a, l, x, y) => SizeCount(a, l, x, y) > 0
 
 \* every stored row is visible through exactly one (author, log) view
 RowsPartition ==
